@@ -345,6 +345,81 @@ def compare_doc(text, mode, real=False):
     return None
 
 
+# ------------------------------------------------------------ tables: alignment and cell text for every column/cell arrangement
+
+ALIGN = [("---", None), (":--", "text-left"), (":-:", "text-center"), ("--:", "text-right")]
+CELLS = [("", ""), ("x%d", "x%d"), ("*e%d*", "e%d")]
+
+
+def table_md(c, ncols, nrows, ncellkinds):
+    al = [c.choose(len(ALIGN)) for _ in range(ncols)]
+    cells = [[c.choose(ncellkinds) for _ in range(ncols)] for _ in range(1 + nrows)]
+    n = [0]
+
+    def cell(k):
+        n[0] += 1
+        src, txt = CELLS[k]
+        return (src % n[0] if "%" in src else src), (txt % n[0] if "%" in txt else txt)
+
+    grid = [[cell(k) for k in row] for row in cells]
+    lines = ["| " + " | ".join(x[0] for x in grid[0]) + " |", "|" + "|".join(ALIGN[a][0] for a in al) + "|"]
+    for row in grid[1:]:
+        lines.append("| " + " | ".join(x[0] for x in row) + " |")
+    return "\n".join(lines) + "\n", dict(align=al, grid=[[x[1] for x in row] for row in grid])
+
+
+def check_table(text, spec, real=False):
+    from docutils import nodes
+
+    ctx = CR.new_context(real=real, config={"enable_extensions": []})
+    ctx.renderer._render_tokens(ctx.md.parse(text, ctx.renderer.md_env))
+    tables = list(ctx.document.findall(nodes.table))
+    if len(tables) != 1:
+        return ("table-count", "%d tables" % len(tables))
+    rows = list(tables[0].findall(nodes.row))
+    if len(rows) != len(spec["grid"]):
+        return ("table-rows", "%d rows, source has %d" % (len(rows), len(spec["grid"])))
+    if len(list(tables[0].findall(nodes.colspec))) != len(spec["align"]):
+        return ("table-columns", "colspec count differs from the %d source columns" % len(spec["align"]))
+    for ri, (row, want) in enumerate(zip(rows, spec["grid"])):
+        entries = [e for e in row.children if isinstance(e, nodes.entry)]
+        if len(entries) != len(want):
+            return ("table-cells", "row %d has %d entries, source has %d cells" % (ri, len(entries), len(want)))
+        for ci, (e, txt) in enumerate(zip(entries, want)):
+            if e.astext() != txt:
+                return ("table-cell-text", "row %d col %d shows %r, source cell is %r" % (ri, ci, e.astext(), txt))
+            exp = ALIGN[spec["align"][ci]][1]
+            if e["classes"] != ([exp] if exp else []):
+                return ("table-alignment", "row %d col %d (cell %r) has classes %r, the column is aligned %r" % (ri, ci, txt, e["classes"], exp))
+    if len(list(tables[0].findall(nodes.thead))) != 1 or (len(spec["grid"]) > 1) != bool(list(tables[0].findall(nodes.tbody))):
+        return ("table-head-body", "thead/tbody structure differs")
+    return None
+
+
+def make_table(eng, ncols, nrows, ncellkinds):
+    setup()
+    c = CR.Choice(eng, n=48, width=15)
+    state = {}
+    eng.witness_fn = lambda m: dict(state)
+
+    def body():
+        c.reset()
+        text, spec = table_md(c, ncols, nrows, ncellkinds)
+        state.update(table=text, spec=spec)
+        try:
+            err = check_table(text, spec)
+        except Exception as exc:  # noqa
+            eng.fail("render-raises", "%s: %s" % (type(exc).__name__, exc))
+        if err:
+            eng.fail(err[0], err[1])
+        eng.passed(3)
+        if any(a for a in spec["align"]):
+            eng.note("attr")
+        return "ok"
+
+    return body
+
+
 def make_struct(eng, nblocks, kinds):
     setup()
     c = CR.Choice(eng, n=48, width=15)
@@ -390,6 +465,9 @@ def families(tier, seed):
     F.append(Family("image", make_image, "image src 3 symbolic chars, alt 2 symbolic chars", args=dict(n=3), nontrivial="attr", max_forks=100000))
     F.append(Family("olist-start", make_olist, "ordered list with start = any integer (symbolic), present/absent, suffix . or )", nontrivial="attr", max_forks=100000))
     F.append(Family("fence-lang", make_fence, "fence info string of 3 symbolic chars over 'py-+3 '", args=dict(n=3), nontrivial="attr", max_forks=100000))
+    for nc, nr, nk in ([(1, 1, 3), (2, 1, 3), (3, 1, 2)] if q else [(1, 2, 3), (2, 1, 3), (2, 2, 3), (3, 1, 2), (3, 2, 2), (3, 1, 3)]):
+        F.append(Family("table/C%dR%dK%d" % (nc, nr, nk), make_table, "pipe table: %d column(s) x alignment none/left/center/right, header + %d body row(s), every cell from %r" % (nc, nr, [x[0] for x in CELLS[:nk]]),
+                        args=dict(ncols=nc, nrows=nr, ncellkinds=nk), nontrivial="attr", max_forks=400000, required=(nc * (1 + nr) <= 6)))
     F.append(Family("struct/B1", make_struct, "one block from %r with two inline fragments from %r, CommonMark and MyST mode" % (BLK, INL), args=dict(nblocks=1, kinds=BLK), nontrivial="nested", max_forks=400000))
     F.append(Family("struct/headings", make_struct, "3-4 headings with levels 1/3/4 each followed by a paragraph (source order of leaves under level skips)", args=dict(nblocks=3 if q else 4, kinds=["h1", "h3", "h4"]),
                     nontrivial=None, max_forks=400000))
@@ -405,6 +483,9 @@ def replay(label, witness):
         if "text" in witness:
             err = compare_doc(witness["text"], witness["mode"], real=True)
             return ("C02/%s" % err[0], "document %r: %s" % (witness["text"], err[1])) if err else None
+        if "table" in witness:
+            err = check_table(witness["table"], witness["spec"], real=True)
+            return ("C02/%s" % err[0], "table %r: %s" % (witness["table"], err[1])) if err else None
         if "href" in witness:
             href, e = witness["href"], witness["all_links_external"]
             ctx = CR.new_context(real=True, config={"all_links_external": e})
